@@ -73,6 +73,8 @@ type FnCtx struct {
 	obls     []*Obligation
 	ctr      int
 	oblCtr   map[string]int
+	snaps    []*heapSnap     // heap versions at which deep-copy facts entered the VC (dcsframe.go)
+	dcsDone  map[string]bool // frame-rule instances already emitted
 	next0    string
 	entry    *State
 	assumed  map[string]bool // trusted/assumed things used
@@ -157,6 +159,12 @@ func (c *FnCtx) oblige(st *State, path, kind, goal, desc string, pos token.Pos) 
 	if goal == "true" {
 		return
 	}
+	if len(c.snaps) > 0 && (strings.HasPrefix(kind, "post") || strings.HasPrefix(kind, "pre@") || strings.Contains(kind, "inv-")) && c.mentionsRecursiveDcs(goal) {
+		if c.dcsDone == nil {
+			c.dcsDone = map[string]bool{}
+		}
+		c.emitDcsFrames(st)
+	}
 	o := &Obligation{Name: c.oblName(path, kind), Kind: kind, Fn: path, Goal: goal, Reach: st.reach, PrefixLen: len(c.lines), Desc: desc}
 	if pos.IsValid() {
 		p := c.g.Prog.Fset.Position(pos)
@@ -237,6 +245,7 @@ type loopInfo struct {
 	hdrState *State
 	hdrVals  map[ssa.Value]Val
 	measure0 string
+	entryNext string // allocation counter when the loop was entered (loopBound() in its invariants)
 }
 
 func (c *FnCtx) subset(format string, a ...interface{}) { subsetf(format, a...) }
@@ -740,11 +749,53 @@ func (f *frame) zeroInitObj(st *State, ref string, t types.Type) {
 }
 
 // zeroInitArr assumes elements [0,n) of fresh array id are zero.
+// idTagUF: ghost "type of the object or array with this allocation id" (the tag of the struct type of the
+// object / of the array's elements). Assumed at the allocation sites of the function being verified; for
+// ids handed out during a call the inferred allocation set of the callee bounds the possible tags.
+func (g *Gen) idTagUF() string { return g.UF("idtag", []string{SInt}, SInt) }
+
+// tagAlloc records the element/object type of a fresh allocation id.
+func (f *frame) tagAlloc(st *State, id string, t types.Type) { f.tagAllocKind(st, id, t, true) }
+
+// tagAllocKind: arrays of T carry the tag of T, single objects of T its negation (a reference into an
+// object id is not a cell of an array of T).
+func (f *frame) tagAllocKind(st *State, id string, t types.Type, array bool) {
+	g := f.c.g
+	if !isStruct(t) {
+		return
+	}
+	if _, ok := t.(*types.Named); !ok {
+		return
+	}
+	tag := g.TE.Tag(t)
+	if !array {
+		tag = -tag
+	}
+	// under the path condition: allocations on mutually exclusive paths may receive the same id
+	f.c.assume(st, fmt.Sprintf("(= (%s %s) %s)", g.idTagUF(), id, smtInt(tag)))
+}
+
+func smtInt(n int) string {
+	if n < 0 {
+		return fmt.Sprintf("(- %d)", -n)
+	}
+	return fmt.Sprint(n)
+}
+
 func (f *frame) zeroInitArr(st *State, arr string, et types.Type, n string, constN int) {
 	g := f.c.g
+	f.tagAlloc(st, arr, et)
 	if constN >= 0 && constN <= 4 {
 		for i := 0; i < constN; i++ {
 			f.zeroInitObj(st, fmt.Sprintf("(elem %s %d)", arr, i), et)
+		}
+		if isStruct(et) {
+			// the cells outside the array do not exist; giving them the zero value keeps statements that
+			// quantify over all cells of an array id meaningful
+			for _, l := range g.TE.Leaves(et, "") {
+				h := g.TE.FieldHeap(et, l.Path, l.Sort)
+				f.c.assume(st, fmt.Sprintf("(forall ((i Int)) (! (=> (or (< i 0) (>= i %d)) (= (select %s (elem %s i)) %s)) :pattern ((select %s (elem %s i)))))", constN, st.Heap(h), arr, g.TE.Zero(l.Type), st.Heap(h), arr))
+			}
 		}
 		return
 	}
@@ -783,7 +834,10 @@ func wfHeapAxiom(h, fullSort, next string) string {
 		if w == "" {
 			return ""
 		}
-		// only for objects that exist: the cells of not-yet-allocated objects are what later allocations initialise
+		// only for allocated r: what a heap version holds at a not-yet-allocated reference is junk, and it is
+		// exactly there that a callee with "modifies nothing" puts the fields of the objects it allocates
+		// (the caller keeps the heap version); demanding allocated contents there contradicted every
+		// postcondition that returns a fresh object with fresh sub-objects and made such paths vacuous
 		return fmt.Sprintf("(assert (forall ((r Ref)) (! (=> (alloc r %s) %s) :pattern ((select %s r)))))", next, w, h)
 	}
 	// map value heap: (Array K V)
@@ -831,4 +885,18 @@ func (f *frame) havocNext(st *State) {
 	n := f.c.declare("next", SInt)
 	f.c.assume(st, fmt.Sprintf("(>= %s %s)", n, st.next))
 	st.next = n
+}
+
+// heapZero: the zero value of the cells of heap h (leaf sorts only; "" when the cell sort is not a leaf sort).
+func (g *Gen) heapZero(h string) string {
+	s := g.TE.heapSort[h]
+	if !strings.HasPrefix(s, "(Array Ref ") {
+		return ""
+	}
+	inner := strings.TrimSuffix(strings.TrimPrefix(s, "(Array Ref "), ")")
+	switch inner {
+	case SInt, SBool, SReal, SStr, SRef, SSlice, SIface:
+		return g.TE.ZeroOfSort(inner, nil)
+	}
+	return ""
 }
